@@ -340,6 +340,31 @@ PROFILES = [
 ARGS = [('R', 'R', 'L'), ('R', 'L'), ('R', 'R'), ('R', 'B', 'L'), ('L', 'L', 'R'), ('R', 'LL', 'L'), ('R', 'T', 'L'), ('R', 'LL')]
 
 
+DIRECTED = [
+    # +0 on one path, -0 on the other: not one constant
+    'with fp.INTEGER:\n        v = -0.0 * 0.5\n    if x1 < 0:\n        with fp.MPFloatContext(4):\n            v = v * (-v)\n    return 1 / v',
+    # a one-element sum passes its element through a context without NaN
+    'with FX:\n        s = sum(xs1)\n        t = sum([x1])\n        u = min(x1, x2) + 0\n    return (s, t, u)',
+    # aliasing through an otherwise unconstrained parameter, elements, slices, tuples
+    'ys = xs1\n    zs = ys\n    t = (zs, x1)\n    a, b = t\n    ws = a[0:1]\n    return (ys, ws, b)',
+    'rows = [xs1, xs1]\n    r = rows[0]\n    q = rows[1]\n    for row in rows:\n        k = row\n    return (r, q)',
+    # sizes: slices, rebinding in branches and loops, zip / enumerate
+    'ys = [x1, x2, 3]\n    if x1 < x2:\n        ys = [x1, x2]\n    zs = ys[1:]\n    ws = [a + b for a, b in zip(ys, ys)]\n    return (len(ys), zs, ws)',
+    'ys = [x1]\n    for i in range(3):\n        ys = [x2, x2, x1] if x1 > i else [e for e in ys]\n    zs = [e for e in ys]\n    return (ys, zs)',
+    'ys = [1, 2, 3, 4]\n    k = 0\n    while k < 2:\n        ys = ys[1:]\n        with fp.INTEGER:\n            k = k + 1\n    return (ys, len(ys))',
+    # class refinement ladders and phis
+    'r = x1\n    if fp.isnan(x1):\n        r = 0\n    elif fp.isinf(x1):\n        r = 1\n    elif x1 == 0:\n        r = 2\n    else:\n        r = fp.logb(x1)\n    if x2 != 0:\n        r = r / x2\n    else:\n        r = x2\n    return r',
+    'v = 1\n    for e in xs1:\n        if e > 0:\n            v = e\n        else:\n            v = v * e\n    w = v\n    k = 0\n    while k < 2 and v == v:\n        v = v / x2\n        with fp.INTEGER:\n            k = k + 1\n    return (v, w)',
+    # constants under nested contexts, redefinition after a copy
+    'a = 0.1 + 0.2\n    with C3:\n        b = 0.1 + 0.2\n        with MF:\n            c = b / 3\n    d = a\n    a = x1\n    if x1 > 0:\n        d = 7\n    return (a, b, c, d)',
+]
+
+
+def directed_sources():
+    from ..gen import prog as genprog
+    return [genprog.HEADER + '\n@fp.fpy\ndef f(x1, x2, xs1):\n    ' + body + '\n' for body in DIRECTED]
+
+
 def shard(i: int, n: int, tier: str, seed: int) -> Result:
     import fpy2 as fp
     from ..gen import prog as genprog, run as genrun
@@ -354,6 +379,41 @@ def shard(i: int, n: int, tier: str, seed: int) -> Result:
     nontriv = {a: 0 for a in ANALYSES}
     analysis_errors = {}
     with genrun.Scratch(prefix='vf-c13-') as work:
+        pool = [0.0, -0.0, 1.0, -2.5, 0.1, 7.0, float('inf'), float('-inf'), float('nan'), 3, -1.0]
+        for di, src in enumerate(directed_sources()):
+            if di % n != i:
+                continue
+            try:
+                mod = genprog.load_module(src, work, 'c13d')
+                chk = FactChecker(mod.f, res, src[src.find('def f('):])
+            except Exception as e:
+                res.count(f'directed_rejected:{type(e).__name__}')
+                res.extra.setdefault('directed_errors', []).append(f'{di}: {type(e).__name__}: {str(e)[:200]}')
+                continue
+            res.count('directed_programs')
+            for k, v in chk.errors.items():
+                analysis_errors[f'directed {di} {k}:{v[:80]}'] = 1
+            for a in pool:
+                for b in pool:
+                    for xs in ([a], [b, a], [a, b, 1.0], []):
+                        args = [a, b, xs]
+                        chk.args_repr = repr(args)
+                        out = genrun.guarded(lambda: run_traced(mod.f, genrun.copy.deepcopy(args), None, chk), timeout=8.0)
+                        res.count('run_returned' if out[0] == 'ok' else 'run_raised')
+                    if chk.found:
+                        break
+                if chk.found:
+                    break
+            for w in chk.found[:2]:
+                w['mechanism']['directed'] = di
+                res.violate(w)
+            res.evaluations += sum(chk.counts.values())
+            res.nontrivial += len(chk.nt)
+            for a in ANALYSES:
+                counts[a] += chk.counts[a]
+            for key in chk.nt:
+                nontriv[key[0]] += 1
+            genprog.unload(mod)
         for pi in range(nprog):
             if len(res.violations) >= 25:
                 res.count('stopped_early_violations')
